@@ -109,8 +109,12 @@ impl<T: Write + Seek> ShapeWriter<T> {
                     ),
                     min: PointZ::new(f64::INFINITY, f64::INFINITY, f64::INFINITY, f64::INFINITY),
                 };
+                // A previous `finalize` may already have written a header,
+                // the reserved header always lives at the start of the file.
+                self.shp_dest.seek(SeekFrom::Start(0))?;
                 self.header.write_to(&mut self.shp_dest)?;
                 if let Some(shx_dest) = &mut self.shx_dest {
+                    shx_dest.seek(SeekFrom::Start(0))?;
                     self.header.write_to(shx_dest)?;
                 }
             }
